@@ -29,7 +29,7 @@ echo "RESULT: clean_demo_rc=$RC_CLEAN suite_rc=$RC_SUITE patched_demo_rc=$RC_PAT
 if [ "$RC_CLEAN" = 0 ] && [ "$RC_SUITE" = 0 ] && [ "$RC_PATCH" != 0 ]; then
   mkdir -p "/verif/seeded/$ID"
   cp "$OUT/patch$N.diff" "/verif/seeded/$ID/patch.diff"
-  cp "$OUT/demo$N.sh" "/verif/seeded/$ID/demo.sh"
+  cp "$OUT/demo$N.sh" "/verif/seeded/$ID/demo.sh"; for extra in "$OUT"/*.py; do [ -f "$extra" ] && cp "$extra" "/verif/seeded/$ID/"; done
   python3 - "$OUT/meta$N.json" "/verif/seeded/$ID/meta.json" "$RC_CLEAN" "$RC_SUITE" "$RC_PATCH" <<'PY'
 import json,sys
 try: m=json.load(open(sys.argv[1]))
